@@ -47,7 +47,11 @@ def build_schema(level):
             lines.append("  d_%s_%d(x: %s = %s): String" % (b, i, tstr, S.value_str(inputs.to_literal(tmp, t, inputs._good(t)))))
             lines.append("  e_%s_%d(x: %s = %s): String" % (b, i, tstr, S.value_str(inputs.to_literal(tmp, t, alt_good(t)))))
     lines.append("  k: Int")
+    lines.append("  shs: [Sh]")
     sdl = (inputs.INPUT_TYPES_SDL
+           + "interface Sh { t(max: Int = 1, tail: String): String }\n"
+           + "type T1 implements Sh { t(max: Int = 140, tail: String): String }\n"
+           + "type T2 implements Sh { t(max: Int = 60, tail: String = \"...\"): String }\n"
            + "directive @da(i: Int, l: [Int!], p: P, e: Color = GREEN, r: Int! = 5, t: Tag, id: ID = 4) on FIELD\n"
            + "type Query {\n" + "\n".join(lines) + "\n}\n")
     return S.parse_sdl(sdl)
@@ -63,7 +67,9 @@ def schema_for(level):
 
 
 def engine_for(level):
-    return explore.engine_for(("C05", level), schema_for(level), directive_impl={"da": DaDirective()})
+    # Query.shs completes its items one after the other: the same field node `t` is executed for T1, later for T2
+    return explore.engine_for(("C05", level), schema_for(level), directive_impl={"da": DaDirective()},
+                              typecfg={"resolver_kwargs": {"Query.shs": {"list_concurrently": False}}})
 
 
 def shards(tier, seed):
@@ -288,6 +294,26 @@ def run_shard(item):
                     exps.append(None)
             if len(got) != 1 or got[0] not in exps or resp.get("data") != {"k": 1}:
                 viol("directive-argument-dictionary-differs", way, "@da", text, raw, (got, resp), exps[:1])
+        # one field node, two implementing types with different schema defaults, executed at different times
+        for way, text, raw in (("omitted", "{ shs { t } }", None), ("literal", "{ shs { t(max: 7) } }", None),
+                               ("absent-variable", "query($m: Int, $s: String) { shs { t(max: $m, tail: $s) } }", {}),
+                               ("null-variable", "query($m: Int) { shs { t(max: $m) } }", {"m": None}),
+                               ("variable", "query($m: Int) { shs { t(max: $m) } }", {"m": 9})):
+            located = doc.parse(text)
+            if V.validate(schema, located):
+                out["machinery"].append("per-type default spelling invalid: " + text)
+                continue
+            out["counts"]["evaluations"] += 1
+            out["counts"]["spellings"] += 1
+            scn = Scenario(root={"k": 1, "shs": [{"_typename": "T1"}, {"_typename": "T2"}, {"_typename": "T1"}]})
+            resp = harness.execute(engine, text, scn, variables=raw)
+            got = sorted((l[0], l[2]) for l in scn.log if l[0][-1] == "t")
+            vals, bad = C.coerce_variables(schema, located.operations[0], raw)
+            node = located.operations[0].sel[0].sel[0]
+            want = sorted(((("shs", i, "t")), C.freeze(C.coerce_arguments(schema, schema.field_def(tn, "t").args, node.args, vals)))
+                          for i, tn in enumerate(("T1", "T2", "T1")))
+            if got != want:
+                viol("argument-dictionary-differs", "per-type-default-" + way, "Sh.t", text, raw, got, want)
         # @skip / @include: literal, variable, variable default, and the two directives together
         for dn, val, expect_present in (("skip", True, False), ("skip", False, True), ("include", True, True), ("include", False, False)):
             lit = "true" if val else "false"
